@@ -1,14 +1,51 @@
 package main
 
-import "fmt"
+import (
+	"fmt"
+	"os"
+	"path/filepath"
+	"strings"
+
+	"verif/instrument"
+)
 
 // InstrSpec selects which seams the AST rewriter inserts into one repo file.
 type InstrSpec struct {
-	File     string // repo-relative path
-	Yield    bool   // yield + lock seams (scheduler)
-	MapOrder bool   // range-over-map seam
+	File string // repo-relative path
+	Opt  instrument.Options
 }
 
-func instrumentFile(src, dst string, is InstrSpec) error {
-	return fmt.Errorf("instrumenter not built yet")
+// instrumentAll regenerates the instrumented copies of h.Instrument from the
+// current /repo tree into workDir and returns repo path -> generated path.
+func instrumentAll(h *Harness, workDir, overlayPath string, env []string) (map[string]string, error) {
+	out := map[string]string{}
+	byPkg := map[string][]InstrSpec{}
+	var order []string
+	for _, is := range h.Instrument {
+		d := filepath.Dir(is.File)
+		if _, ok := byPkg[d]; !ok {
+			order = append(order, d)
+		}
+		byPkg[d] = append(byPkg[d], is)
+	}
+	for _, d := range order {
+		pkg, err := instrument.Load(repoDir, d, overlayPath, env)
+		if err != nil {
+			return nil, err
+		}
+		for _, is := range byPkg[d] {
+			src, counts, err := pkg.File(filepath.Join(repoDir, is.File), is.Opt)
+			if err != nil {
+				return nil, fmt.Errorf("%s: %w", is.File, err)
+			}
+			dst := filepath.Join(workDir, "instr", strings.ReplaceAll(is.File, "/", "__"))
+			os.MkdirAll(filepath.Dir(dst), 0o755)
+			if err := os.WriteFile(dst, src, 0o644); err != nil {
+				return nil, err
+			}
+			_ = counts
+			out[filepath.Join(repoDir, is.File)] = dst
+		}
+	}
+	return out, nil
 }
